@@ -797,6 +797,12 @@ class HttpRequestParser(HttpParser[RawRequestMessage]):
             else:  # HTTP 1.1 must ask to close.
                 close = False
 
+        if version_o < HttpVersion11 and hdrs.TRANSFER_ENCODING in headers:
+            # https://www.rfc-editor.org/rfc/rfc9112#section-6.1-16
+            # The framing of such a message is faulty: an HTTP/1.0 hop may
+            # have framed it differently, so nothing may follow it.
+            close = True
+
         return RawRequestMessage(
             method,
             path,
